@@ -1,5 +1,6 @@
 #include "dispatch.hpp"
 #include <queue>
+#include <atomic>
 #include <map>
 #include <set>
 #include <string>
@@ -75,7 +76,7 @@ struct Dispatcher::Data {
     std::condition_variable jobs_available;
     std::vector<std::thread> threads;
     std::set<std::thread::id> thread_ids;
-    uint32_t threads_waiting{0u};
+    std::atomic<uint32_t> threads_waiting{0u}; // read by wait() without the mutex
 
     struct {
         std::vector<std::unique_ptr<JobQueue> > array;
@@ -83,7 +84,7 @@ struct Dispatcher::Data {
         std::map<std::string, QueueId> by_name;
     } extra;
 
-    bool terminate {false};
+    std::atomic<bool> terminate {false}; // read by workers and wait() without the mutex
     bool single_thread_mode{false};
 
     JobQueue* findQueue() {
